@@ -395,6 +395,41 @@ def check_scales(case):
     return tags
 
 
+def check_tall(case):
+    """Tens of thousands of rows and two sensitive columns that are nearly (not exactly) collinear (condition number
+    1e4 .. 1e6): the output is still the least-squares residual - compared with a Householder-QR reference on the
+    centred, normalised sensitive block - and uncorrelated with both sensitive columns."""
+    from fairlearn.preprocessing import CorrelationRemover
+
+    rs = np.random.RandomState(case["seed"])
+    n = case["n"]
+    s1 = rs.randn(n)
+    s2 = s1 + case["eps"] * rs.randn(n)
+    Z = np.column_stack([rs.randn(n) + 0.7 * s1 + 0.4 * (s2 - s1) / case["eps"] for _ in range(case["no"])])
+    X = np.column_stack([s1, s2, Z])
+    out = np.asarray(CorrelationRemover(sensitive_feature_ids=[0, 1], alpha=1.0).fit_transform(X), dtype=float)
+    _need(out.shape == Z.shape, f"output shape {out.shape}, expected {Z.shape}")
+    S = X[:, :2] - X[:, :2].mean(axis=0)
+    Q, _ = np.linalg.qr(S / np.linalg.norm(S, axis=0))
+    ref = Z - Q @ (Q.T @ (Z - Z.mean(axis=0)))
+    dev = float(np.max(np.abs(out - ref)))
+    _need(dev <= 1e-6 * max(1.0, float(np.max(np.abs(Z)))),
+          f"n={n}, two sensitive columns with relative difference {case['eps']}: output deviates from the least-squares residual by {dev!r}")
+    for j in range(2):
+        sc = S[:, j] / np.linalg.norm(S[:, j])
+        for k in range(out.shape[1]):
+            oc = out[:, k] - out[:, k].mean()
+            corr = float(sc @ oc) / float(np.linalg.norm(oc))
+            _need(abs(corr) <= 1e-6, f"n={n}: output column {k} keeps correlation {corr!r} with sensitive column {j}")
+    return ["nt"] + (["n>50000"] if n > 50000 else [])
+
+
+@st.composite
+def _tall_cases(draw):
+    return {"n": draw(st.sampled_from([50001, 60000, 100000, 2000])), "eps": draw(st.sampled_from([1e-4, 1e-5, 1e-6])),
+            "no": draw(st.integers(1, 2)), "seed": draw(st.integers(0, 2**31 - 1))}
+
+
 @st.composite
 def _scale_cases(draw):
     n = draw(st.integers(5, 12))
@@ -450,4 +485,6 @@ SUBS = [
                 "full_rank": 0.224, "dataframe": 0.1, "alpha_interior": 0.209, "alpha_end": 0.1, "interleaved": 0.126}),
     Sub("column_scales", check_scales, strategy=_scale_cases, quick=300, thorough=6000, shards=8, max_skip_frac=0.6,
         floors={"scale_ratio>=1e6": 0.05}),
+    Sub("tall_near_collinear", check_tall, strategy=_tall_cases, quick=8, thorough=100, shards=8, shrink_quick=False,
+        floors={"n>50000": 0.4}),
 ]
